@@ -418,7 +418,9 @@ var nameShapes = []string{"x", "Tok", "_t", "t_1", "T9", "LongTokenNameWithManyL
 	// names that are another name plus digits, or differ only in case
 	"X", "X1", "X11", "X2", "T1", "T12", "tok",
 	// names that look like words of the grammar language or of the generator itself
-	"token", "left", "prec", "accept", "end", "operator", "union_x", "Left", "TOKEN"}
+	"token", "left", "prec", "accept", "end", "operator", "union_x", "Left", "TOKEN",
+	// names whose concatenations with '_' coincide (AA_BB CC / AA BB_CC)
+	"AA", "BB", "CC", "AA_BB", "BB_CC"}
 
 // Rich produces a usable random grammar that exercises the declaration
 // section: explicit token numbers, literals, tags, tokens declared by %token /
@@ -436,7 +438,7 @@ func rich(r *rand.Rand, c RichCfg) *spec.Grammar {
 	g := &spec.Grammar{}
 	tags := []string{"s"}
 	if c.IntTags {
-		tags = []string{"s", "t", "n", "m"}
+		tags = []string{"s", "t", "n", "m", "st", "nm"}
 	}
 	nT := 2 + r.Intn(6)
 	nN := 1 + r.Intn(5)
